@@ -94,3 +94,4 @@ NOT_APPLICABLE = {
     "C12": "no check of its own yet: the configuration dimension (SSE2 off, small caches) is only exercised by thorough-tier groups of C01/C02/C03; not claimed (DESIGN.md 3/C12)",
     "C18": "file I/O needs assumed contracts for libpng/stdio; not built in this round, nothing claimed (DESIGN.md 3/C18)",
 }
+HOOK_COMMITS = ["bec967df864dbebefd0e73acdfb14866f9a11d94"]
